@@ -115,6 +115,7 @@ class LegacyAdvertiser:
                 ll.AdvInd(
                     advertiser_address=self.address,
                     data=self.advertising_data,
+                    scan_response_data=self.scan_response_data,
                 )
             )
 
@@ -171,7 +172,9 @@ class AdvertisingSet:
             address = self.address
             assert address
 
-            self.controller.send_advertising_pdu(ll.AdvInd(address, bytes(self.data)))
+            self.controller.send_advertising_pdu(
+                ll.AdvInd(address, bytes(self.data), bytes(self.scan_response_data))
+            )
 
 
 # -----------------------------------------------------------------------------
@@ -863,25 +866,31 @@ class Controller:
                 self.send_hci_packet(
                     hci.HCI_LE_Extended_Advertising_Report_Event([ext_report])
                 )
-                ext_report = hci.HCI_LE_Extended_Advertising_Report_Event.Report(
-                    event_type=hci.HCI_LE_Extended_Advertising_Report_Event.EventType.SCAN_RESPONSE,
-                    address_type=pdu.advertiser_address.address_type,
-                    address=pdu.advertiser_address,
-                    primary_phy=hci.Phy.LE_1M,
-                    secondary_phy=hci.Phy.LE_1M,
-                    advertising_sid=0,
-                    tx_power=0,
-                    rssi=-50,
-                    periodic_advertising_interval=0,
-                    direct_address_type=(
-                        direct_address.address_type if direct_address else 0
-                    ),
-                    direct_address=direct_address or hci.Address.ANY,
-                    data=pdu.data,
-                )
-                self.send_hci_packet(
-                    hci.HCI_LE_Extended_Advertising_Report_Event([ext_report])
-                )
+                # Scan responses are only solicited (and reported) when scanning
+                # actively, and carry the advertiser's scan response data.
+                if (
+                    self.le_scan_type
+                    == hci.HCI_LE_Set_Scan_Parameters_Command.ACTIVE_SCANNING
+                ):
+                    ext_report = hci.HCI_LE_Extended_Advertising_Report_Event.Report(
+                        event_type=hci.HCI_LE_Extended_Advertising_Report_Event.EventType.SCAN_RESPONSE,
+                        address_type=pdu.advertiser_address.address_type,
+                        address=pdu.advertiser_address,
+                        primary_phy=hci.Phy.LE_1M,
+                        secondary_phy=hci.Phy.LE_1M,
+                        advertising_sid=0,
+                        tx_power=0,
+                        rssi=-50,
+                        periodic_advertising_interval=0,
+                        direct_address_type=(
+                            direct_address.address_type if direct_address else 0
+                        ),
+                        direct_address=direct_address or hci.Address.ANY,
+                        data=pdu.scan_response_data,
+                    )
+                    self.send_hci_packet(
+                        hci.HCI_LE_Extended_Advertising_Report_Event([ext_report])
+                    )
             else:
                 report = hci.HCI_LE_Advertising_Report_Event.Report(
                     event_type=hci.HCI_LE_Advertising_Report_Event.EventType.ADV_IND,
@@ -891,14 +900,18 @@ class Controller:
                     rssi=-50,
                 )
                 self.send_hci_packet(hci.HCI_LE_Advertising_Report_Event([report]))
-                report = hci.HCI_LE_Advertising_Report_Event.Report(
-                    event_type=hci.HCI_LE_Advertising_Report_Event.EventType.SCAN_RSP,
-                    address_type=pdu.advertiser_address.address_type,
-                    address=pdu.advertiser_address,
-                    data=pdu.data,
-                    rssi=-50,
-                )
-                self.send_hci_packet(hci.HCI_LE_Advertising_Report_Event([report]))
+                if (
+                    self.le_scan_type
+                    == hci.HCI_LE_Set_Scan_Parameters_Command.ACTIVE_SCANNING
+                ):
+                    report = hci.HCI_LE_Advertising_Report_Event.Report(
+                        event_type=hci.HCI_LE_Advertising_Report_Event.EventType.SCAN_RSP,
+                        address_type=pdu.advertiser_address.address_type,
+                        address=pdu.advertiser_address,
+                        data=pdu.scan_response_data,
+                        rssi=-50,
+                    )
+                    self.send_hci_packet(hci.HCI_LE_Advertising_Report_Event([report]))
 
         # Create connection.
         if (
